@@ -163,3 +163,21 @@ example : tokensIdx ['1', '.', '0', 'é', '-', 'α', 'l', 'p', 'h', 'a', 'N', 'B
   have := tokensIdx_from 13 ['1', '.', '0', 'é', '-', 'α', 'l', 'p', 'h', 'a', 'N', 'B', '2'] [] 20
     (by decide) (by decide)
   simpa [bytesLen] using this
+
+/-- **Slices taken at an ASCII delimiter are on character boundaries.**  `alternate_match` cuts
+    the pattern at the byte offsets `rfind('{')`, `find('}')` (+1) and `Dewey::new` at the offsets
+    of '<' / '>' (+1, +2 after an '='), `Dewey::matches`/`PkgName` at the last '-'.  A byte search
+    for a one-byte character returns the byte length of the text before its occurrence; slicing
+    there, and one byte further, never panics — whatever multi-byte characters precede or
+    follow. -/
+theorem C17_ascii_delimiter_slices (pre suf : Str) (c : Char) (hc : c.toNat < 0x80) :
+    sliceFrom (pre ++ c :: suf) (bytesLen pre) = some (c :: suf) ∧
+    sliceFrom (pre ++ c :: suf) (bytesLen pre + 1) = some suf := by
+  refine ⟨sliceFrom_prefix pre (c :: suf), ?_⟩
+  have := sliceFrom_prefix (pre ++ [c]) suf
+  rw [bytesLen_append] at this
+  simpa [bytesLen, utf8Len_ascii c hc] using this
+
+/-- … and a slice taken strictly INSIDE a multi-byte character is the panic outcome, so the
+    statement above is not true for free -/
+example : sliceFrom ['a', 'é', 'b'] 2 = none ∧ sliceFrom ['a', 'é', 'b'] 3 = some ['b'] := by decide
